@@ -201,5 +201,6 @@ pub fn c01(tier: Tier, seed: u64) -> Prop {
         ],
         units,
         extra: no_extra(),
+        profiles: vec!["release"],
     }
 }
